@@ -75,6 +75,7 @@ Inductive qevent :=
 | Fire (i : item)     (* waitingLoop: the entry of i is ready, pop it and Add(i) *)
 | Get (d : Z)         (* the idle worker takes the head of the queue; its callback takes d *)
 | Done                (* the callback returned: Done(item) *)
+| Forget (i : item)   (* rateLimiter.Forget(i): after a successful callback, before Done *)
 | Retry (i : item) (d : Z).
                       (* AddAfter(i, d) called directly: the limiter is not consulted. The
                          controller does it only to retry after a failure (Reconcile returning
@@ -107,6 +108,10 @@ Definition qevent_apply (f : whenfn) (D : Z) (st : qstate) (t : Z) (ev : qevent)
       else Some {| q_now := t; q_last := snd r; q_wait := wait_insert i (t + d) (q_wait st);
                    q_fifo := q_fifo st; q_dirty := q_dirty st; q_proc := q_proc st;
                    q_log := q_log st1 |}
+  | Forget i =>
+      (* both limiters: func Forget(_) {} -- `last` is what it was (Limiter.reload_forget) *)
+      Some {| q_now := t; q_last := reload_forget (q_last st) t; q_wait := q_wait st;
+              q_fifo := q_fifo st; q_dirty := q_dirty st; q_proc := q_proc st; q_log := q_log st |}
   | Retry i d =>
       (* the same as Arrive with the given delay and the limiter left alone *)
       let r := (d, q_last st) in
